@@ -44,7 +44,7 @@ def gen_case(rng, k, consts):
     extreme = rng.random() < 0.15
     T = rng.choice([1.0, 10.0, 77.0, 300.0, 1000.0, 5000.0])
     kT = consts["kB"] * T
-    c = {"crit": kind, "T": T, "natoms": rng.choice([0, 1, 2, 5, 12]) if kind != "ham" else rng.choice([1, 2, 5]),
+    c = {"crit": kind, "T": T, "warm": rng.random() < 0.6, "natoms": rng.choice([0, 1, 2, 5, 12]) if kind != "ham" else rng.choice([1, 2, 5]),
          "E_old": dy(rng, -50, 50), "extreme": extreme}
     scale = rng.choice([0.3, 1.0, 3.0, 8.0, 25.0]) * kT
     if extreme:
@@ -65,11 +65,13 @@ def gen_case(rng, k, consts):
         c["cell_old"], c["cell_new"] = old.tolist(), new.tolist()
         c["P"] = rng.choice([0.0, dy(rng, -0.02, 0.05, 16), dy(rng, 0, 0.5, 10)])
     if kind == "tens":
-        mode = rng.choice(["hydro", "hydro", "general", "zero"])
+        mode = rng.choice(["hydro", "hydro", "general", "nonsym", "nonsym", "zero"])
         if mode == "hydro":
             S = (np.eye(3) * c["P"]).tolist()
         elif mode == "zero":
             S = np.zeros((3, 3)).tolist()
+        elif mode == "nonsym":   # "all external stress tensors": not necessarily symmetric
+            S = [[dy(rng, -0.03, 0.03, 14) for _ in range(3)] for _ in range(3)]
         else:
             m = np.array([[dy(rng, -0.03, 0.03, 14) for _ in range(3)] for _ in range(3)])
             S = ((m + m.T) / 2).tolist()
@@ -208,11 +210,14 @@ def run(res: C.Result):
         results[j::16] = o["results"]
     coq_cases, idx = [], []
     dist = {"criteria": {}, "verdicts": {"accept": 0, "reject": 0, "raised": 0}, "regime": {"A>=1": 0, "A<1": 0, "underflow": 0},
-            "rel_distance": {}, "extreme": 0, "sheared_hydrostatic": 0, "inconclusive_guard_band": 0}
+            "rel_distance": {}, "extreme": 0, "warmed_up_with_other_settings": 0, "stress_mode": {}, "sheared_hydrostatic": 0, "inconclusive_guard_band": 0}
     distinct = set()
     for k, (c, r) in enumerate(zip(cases, results)):
         dist["criteria"][c["crit"]] = dist["criteria"].get(c["crit"], 0) + 1
         dist["extreme"] += c["extreme"]
+        dist["warmed_up_with_other_settings"] += bool(c.get("warm"))
+        if c["crit"] == "tens":
+            dist["stress_mode"][c["stress_mode"]] = dist["stress_mode"].get(c["stress_mode"], 0) + 1
         if "exception" in r:
             res.fail("harness-or-impl-exception", f"{r['exception']}: {r['message']}", {"input": c, "observed": r})
             continue
@@ -279,7 +284,7 @@ def run(res: C.Result):
     res.coverage.update(
         evaluations=ncases, distinct_nontrivial=len(distinct),
         rule="five criteria on real Canonical/HamiltonianCanonical/Isobaric/Isotension/GrandCanonical objects (settings applied "
-             "through the public setters after construction), dyadic inputs, T in {1..5000 K}, |dE|/kT up to 1e7, triclinic/"
+             "through the public setters after construction; in 60% of the cases AFTER a first evaluate() under the construction-time settings, so that anything cached per object is exposed), dyadic inputs, T in {1..5000 K}, |dE|/kT up to 1e7, triclinic/"
              "sheared cells, N in {0..50}, delta in {+-1,+-2}; u placed at relative distance 1e-6/1e-3/0.3 from the threshold "
              "when A<1; non-trivial = distinct (criteria, T, E_new, u)",
         correspondence={"flavour": "functional (decided in Coq by interval arithmetic)", "cases": len(idx), "agreed": agree,
